@@ -2,6 +2,7 @@
 from dsim import seams
 from dsim.core import HarnessError
 from props.common import gen_stalls, gen_strategy, quiet_logging, Violations
+from dsim.core import Deadlock
 from worlds.reqpath import make_legacy, ReqPathRun, base_plan, RETRY_NEXT_HOST
 from worlds.full import ReqObs
 
@@ -70,6 +71,20 @@ def gen_plan(rng, tier):
         p['focus_stall'] = ['_replace', rng.choice([0.3, 0.4, 0.6]), rng.choice([0.1, 0.2])]
         p.pop('stall', None)
         return p
+    if n >= 2 and rng.random() < 0.1:
+        # a pool disappears (its host is convicted after a connection reset under a pending request) while a switch is being handed
+        # to the pools: the executor thread handling the failure is descheduled inside Cluster.on_down, the loop thread applying
+        # the switch is descheduled between two lines of _set_keyspace_for_all_pools
+        x = rng.randrange(1, n)
+        p['remote_nodes'] = []
+        sw = p['switches'][-1]
+        sw.update(reject={}, rst_before=x, rst_inflight=True, rst_lead=rng.choice([0.0005, 0.003, 0.01]), orphan_node=None, how='use_none',
+                  slow=dict((str(i), 1) for i in range(n)))
+        p['deep_stalls'] = [['on_down', rng.choice([4, 7, 22, 26, 28, 29, 30]), rng.choice([0.02, 0.05, 0.1]), 1],
+                            ['_set_keyspace_for_all_pools', rng.randrange(10, 27), rng.choice([0.1, 0.2, 0.5]), 4]]
+        p.pop('stall', None)
+        p.pop('focus_stall', None)
+        return p
     if rng.random() < 0.2:
         # protocol 2: HostConnectionPool, several connections per pool, each of which has to switch
         make_legacy(p, rng)
@@ -95,7 +110,7 @@ def gen_plan(rng, tier):
 def line_funcs(w):
     return [w.ccl.Session._set_keyspace_for_all_pools, w.cpool.HostConnection._set_keyspace_for_all_conns,
             w.cpool.HostConnection._replace, w.cconn.Connection.set_keyspace_async,
-            w.cpool.HostConnectionPool._set_keyspace_for_all_conns, w.cpool.HostConnectionPool.return_connection]
+            w.cpool.HostConnectionPool._set_keyspace_for_all_conns, w.cpool.HostConnectionPool.return_connection, w.ccl.Cluster.on_down]
 
 
 def run_plan(plan, seed, choices=None):
@@ -148,6 +163,17 @@ def run_plan(plan, seed, choices=None):
                         pass
                 w.spawn(trigger, 'trigger')
             if sw['rst_before'] is not None:
+                if sw.get('rst_inflight'):
+                    # a request is waiting for that node's (slow) answer when its connection is reset: the request fails, the
+                    # connection failure is signalled, the host is convicted and its pool removed - on the executor, while the switch runs
+                    rid_i = 970 + si
+                    fc.scripts[rid_i] = [{'kind': 'ok', 'delay': 2.0}]
+                    try:
+                        session.execute_async("SELECT * FROM ks1.t /*rid=%d*/" % rid_i, timeout=4.0, host=lbp.hosts.get(fc.nodes[sw['rst_before']].addr))
+                    except Exception:
+                        pass
+                    w.sleep(0.02)
+                    sim.probe('connection_reset_under_a_request_before_switch')
                 sim.at(0.0, (lambda k=sw['rst_before']: fc.rst_conns(k, 'pool')), 'rst pool conn n%d' % sw['rst_before'])
                 w.sleep(sw['rst_lead'])
             if sw.get('load'):
@@ -234,7 +260,11 @@ def run_plan(plan, seed, choices=None):
                 except Exception as e:
                     o.result = ('err', type(e).__name__, str(e)[:160])
     run.user = user
-    status = run.run(settle=0.5)
+    try:
+        status = run.run(settle=0.5)
+    except Deadlock as e:
+        # every thread is blocked for good with no timer or event left: a switch still waited for (judged below) can never complete
+        status = 'deadlock: %s' % e
     V = Violations()
     nontrivial = False
     alllog = fc.all_logs()
@@ -256,7 +286,7 @@ def run_plan(plan, seed, choices=None):
             why = 'pool-without-connection' if 'no-connection' in states else ('pool-shutdown' if 'shutdown' in states else (
                 'connection-at-capacity' if 'at-capacity' in states else 'other'))
             V.add('C20/completes', 'switch-never-completed:' + why,
-                  'switch to %s (%s) neither returned nor raised by the horizon; pool states at the start: %r' % (rec['ks'], sw['how'], rec['pools']))
+                  'switch to %s (%s) neither returned nor raised by the end of the run; pool states at the start: %r' % (rec['ks'], sw['how'], rec['pools']))
             continue
         # which pools' USE were rejected during this switch window
         rejected = [e for e in alllog if e.get('use') == rec['ks'] and rec['start'] <= e['seq'] <= rec['end'] and
